@@ -21,6 +21,7 @@
 EXTENDS Sem, Ast, Json
 
 CONSTANTS MaxCmds,     \* commands other than `continue` a behaviour may use
+          MaxReqs,     \* setBreakpoints requests before the run (two-file session)
           GcTwice      \* BOOLEAN
 
 (* ---- line numbering exactly as the harness printer does it (one statement per line, `else:`
@@ -100,18 +101,55 @@ Prog4 == Number(
              SReturn(Call0("inner", <<>>))>>),                                        \* 9
       SEmit(Call0("outer", <<AInt(1)>>))>>)                                           \* 10
 
-Progs == <<Prog1, Prog2, Prog3, Prog4>>
-Markers == <<{2, 4, 9, 12, 14}, {3, 6, 8, 11, 13}, {2, 4, 6, 8}, {5, 8, 10}>>
+(* a session over TWO files: lib.star (evaluated and frozen beforehand, without the debugger; its
+   lines are numbered 101, 102, ... here) and main.star, whose first line is the load statement the
+   harness writes.  The client configures breakpoints with one request per file, each carrying the
+   COMPLETE list for that file (empty when the file has none any more). *)
+LibLine == 100
+Prog5Lib == NumB(
+    <<SDef("sc", <<P("x"), P("acc")>>,
+           <<SAssign(TVar("y"), ABin("*", AVar("x"), AInt(2))),                          \* 102
+             SEmit(AVar("y")),                                                          \* 103  marker
+             SExpr(AMCall(AVar("acc"), "append", <<AVar("y")>>)),                        \* 104
+             SReturn(AVar("y"))>>)>>, 1, LibLine + 1, <<>>).s                            \* 105
+Prog5 == NumB(
+    <<SDef("run", <<P("n")>>,                                                           \* 2
+           <<SAssign(TVar("o"), AList(<<>>)),                                           \* 3
+             SFor(TVar("i"), Call0("range", <<AVar("n")>>),                             \* 4
+                  <<SAssign(TVar("v"), Call0("sc", <<AVar("i"), AVar("o")>>)),          \* 5
+                    SEmit(AVar("v"))>>),                                                \* 6  marker
+             SReturn(AVar("o"))>>),                                                     \* 7
+      SEmit(Call0("run", <<AInt(2)>>))>>, 1, 2, <<>>).s                                  \* 8  marker
+
+Progs == <<Prog1, Prog2, Prog3, Prog4, Prog5>>
+Libs == <<<<>>, <<>>, <<>>, <<>>, Prog5Lib>>
+Markers == <<{2, 4, 9, 12, 14}, {3, 6, 8, 11, 13}, {2, 4, 6, 8}, {5, 8, 10}, {6, 8, 103}>>
+FileOf(line) == IF line > LibLine THEN "lib" ELSE "main"
+(* requests: <<file, lines>>; the configuration in force is the last request of each file *)
+Reqs5 == {<<"main", ls>> : ls \in SUBSET {6, 8}} \cup {<<"lib", ls>> : ls \in SUBSET {103}}
+RECURSIVE Effective(_, _, _)
+Effective(rs, i, acc) ==
+    IF i > Len(rs) THEN acc
+    ELSE Effective(rs, i + 1, {l \in acc : FileOf(l) # rs[i][1]} \cup rs[i][2])
 
 (* the statement stream: Sem's stmt events; module-level ones doubled under the deviation *)
-RunTr(prog) == RunModule(prog, 50, TRUE)
+RunTr(px) ==
+    IF px # 5 THEN RunModule(Progs[px], 50, TRUE)
+    ELSE \* lib first (its own frame, no debugger: its events are dropped), then main above it
+         LET namesA == SetToSeq(AssignedS(Prog5Lib, 1))
+             frA == NewFrame(M0(50, TRUE), namesA, [q \in 1..Len(namesA) |-> UnboundV])
+             a == ExecB(Prog5Lib, 1, <<frA.a>>, frA.m)
+             namesB == SetToSeq(AssignedS(Prog5, 1))
+             frB == NewFrame([a.m EXCEPT !.ev = <<>>], namesB, [q \in 1..Len(namesB) |-> UnboundV])
+         IN ExecB(Prog5, 1, <<frB.a, frA.a>>, frB.m).m
 RECURSIVE Dup(_, _)
 Dup(evs, i) == IF i > Len(evs) THEN <<>>
                ELSE (IF GcTwice /\ evs[i].d = 0 THEN <<evs[i], evs[i]>> ELSE <<evs[i]>>) \o Dup(evs, i + 1)
-Stream(prog) == Dup(SelectSeq(RunTr(prog).ev, LAMBDA e : e.e = "stmt"), 1)
+Stream(px) == Dup(SelectSeq(RunTr(px).ev, LAMBDA e : e.e = "stmt"), 1)
 
 VARIABLES pi,        \* program index
-          bps,       \* set of breakpoint lines
+          reqs,      \* the setBreakpoints requests, in order (sequence of <<file, lines>>)
+          bps,       \* set of breakpoint lines in force = Effective(reqs)
           stream,    \* statement stream
           pos,       \* next statement event
           step,      \* [k \in {"none","into","over","out"}, d]
@@ -119,14 +157,18 @@ VARIABLES pi,        \* program index
           stops,     \* sequence of [line, d, vs]
           cmds,      \* commands issued so far
           budget     \* non-continue commands left
-vars == <<pi, bps, stream, pos, step, paused, stops, cmds, budget>>
+vars == <<pi, reqs, bps, stream, pos, step, paused, stops, cmds, budget>>
 
 NoStep == [k |-> "none", d |-> 0]
 
 Init == /\ pi \in 1..Len(Progs)
-        /\ bps \in SUBSET Markers[pi]
-        /\ stream = Stream(Progs[pi])
-        /\ pos = 1 /\ step = NoStep /\ paused = FALSE /\ stops = <<>> /\ cmds = <<>> /\ budget = MaxCmds
+        /\ IF pi # 5 THEN \E b \in SUBSET Markers[pi] : reqs = << <<"main", b>> >>
+           ELSE \E n \in 1..MaxReqs : reqs \in [1..n -> Reqs5]
+        /\ bps = Effective(reqs, 1, {})
+        /\ stream = Stream(pi)
+        /\ pos = 1 /\ step = NoStep /\ paused = FALSE /\ stops = <<>> /\ cmds = <<>>
+        \* a session with several requests is about the configuration: it only continues
+        /\ budget = IF Len(reqs) > 1 THEN 0 ELSE MaxCmds
 
 (* DapAdapterEvalHookImpl::call *)
 BeforeStmt ==
@@ -141,7 +183,7 @@ BeforeStmt ==
                /\ stops' = Append(stops, [line |-> ev.a, d |-> ev.d, vs |-> ev.vs])
                /\ UNCHANGED <<pos>>
           ELSE /\ pos' = pos + 1 /\ UNCHANGED <<paused, step, stops>>
-    /\ UNCHANGED <<pi, bps, stream, cmds, budget>>
+    /\ UNCHANGED <<pi, reqs, bps, stream, cmds, budget>>
 
 Command(c) ==
     /\ paused
@@ -151,7 +193,7 @@ Command(c) ==
     /\ pos' = pos + 1             \* the statement at which we were paused now executes
     /\ cmds' = Append(cmds, c)
     /\ budget' = IF c = "continue" THEN budget ELSE budget - 1
-    /\ UNCHANGED <<pi, bps, stream, stops>>
+    /\ UNCHANGED <<pi, reqs, bps, stream, stops>>
 
 (* evaluate / watch requests while paused: an expression that evaluates, one that fails at run time and
    one that does not parse.  Whatever the answer, the session is exactly where it was. *)
@@ -160,7 +202,7 @@ Evaluate(c) ==
     /\ paused /\ budget > 0
     /\ cmds' = Append(cmds, c)
     /\ budget' = budget - 1
-    /\ UNCHANGED <<pi, bps, stream, pos, step, paused, stops>>
+    /\ UNCHANGED <<pi, reqs, bps, stream, pos, step, paused, stops>>
 
 Next == BeforeStmt \/ (\E c \in {"continue", "into", "over", "out"} : Command(c)) \/ (\E c \in EvalCmds : Evaluate(c))
 Spec == Init /\ [][Next]_vars
@@ -179,8 +221,9 @@ NoSpuriousStops == Len(stops) <= Len(stream)
 
 PrintBehaviour ==
     Finished => PrintT(<<"CASE", ToJson([prog |-> pi, gc |-> GcTwice, bps |-> bps, cmds |-> cmds,
+                                         reqs |-> [i \in 1..Len(reqs) |-> [f |-> reqs[i][1], ls |-> reqs[i][2]]],
                                          stops |-> [i \in 1..Len(stops) |-> [line |-> stops[i].line, vs |-> stops[i].vs]]])>>)
 PrintProgs == PrintT(<<"PROGS", ToJson([i \in 1..Len(Progs) |->
-                  [ast |-> Progs[i], out |-> RunTr(Progs[i]).out, err |-> RunTr(Progs[i]).err]])>>)
+                  [ast |-> Progs[i], lib |-> Libs[i], out |-> RunTr(i).out, err |-> RunTr(i).err]])>>)
 ASSUME PrintProgs
 =============================================================================
